@@ -17,6 +17,23 @@ CLAIMED = {
             "Trusted: go/ssa, encoder, solvers; fmt.Errorf returns non-nil (extern). Library decoders and CRC collisions are assumptions.", "§7 C19"),
 }
 
+CLAIMED.update({
+    "C05": ("Exactly-once answering proved per function on the real code: sendWithContext/sendOptionalWithContext/sendToChannelsWithContext (every waiter attempted once even after a failed send), handleFlush (one answer round on every path for every combination of failing store calls), processIngestRequest (each request answered now xor retained, for every path through its eight loops), flushBufferedData (copies handed to the flush queue hold exactly the pending buffers and waiters; state empty afterwards), triggerFlush (enqueue or abandon-with-answers, never neither), IngestRows/Flush (accepted iff sent on ingestChan while the read lock is held; lock released on every path), ingestWorker (every request processed with the flush context).",
+            "Sequential, per-function obligations only; the interleaving argument composing them (stopped flag under the write lock, FIFO lossless channels, drain on shutdown) is on paper in DESIGN §7 and is an assumption. Store and context interfaces are extern contracts whose results are unconstrained.", "§7 C05"),
+    "C06": ("Ack-after-commit proved for handleFlush for every outcome of every store call (results of CreateFile, Write, Close, Abort, Update, TombstoneFile are unconstrained, so every single fault and every combination is covered): a nil answer round for a non-empty request starts only after Close and Update returned nil; Update is called only after Close returned nil; an error answer means Update did not succeed and a created file was tombstoned; abortFileWriter aborts-or-closes once and always tombstones.",
+            "Ghost counters are updated only by extern contracts of the store interfaces (assumed) and entry clauses of the answer helpers. Read-side visibility and the batch-atomicity frame of processIngestRequest are not yet under contract (DESIGN §7 C06).", "§7 C06"),
+    "C07": ("Routing obligations on the ingest actor: a force flush always enqueues through triggerFlush and never answers inline; no nil answer to a non-empty batch or to Flush is ever produced on the ingest actor (processIngestRequest, flushBufferedData, triggerFlush: sentnil unchanged for every channel).",
+            "Channel FIFO-ness and the single-producer/single-consumer structure are runtime/structural assumptions (DESIGN §7 C07).", "§7 C07"),
+    "C08": ("Sequential Stop-contract obligations: IngestRows and Flush return ErrEngineStopped and send nothing whenever they observe stopped; handleFlush with the flush context already done performs no CreateFile/Update and produces no success acknowledgement, while still attempting every waiter.",
+            "Timing ('by roughly that deadline'), late AfterFunc callbacks and Stop's own body are not yet under contract (DESIGN §7 C08).", "§7 C08"),
+    "C09": ("Mechanism obligations: IngestRows accepts only by a completed send on ingestChan; triggerFlush's hand-off to the flush worker is a blocking select (enqueue or abandon, never a silent drop).",
+            "Channel capacities set by the constructor and the composition of the bound are not yet under contract (DESIGN §7 C09).", "§7 C09"),
+    "C13": ("Merge commit protocol proved for every outcome of every store call: executeMergeGroup returns a pointer only after Close returned nil and otherwise tombstones exactly its own output; merge calls Update at most once, only after every group's output was closed successfully and before any tombstone; without a commit the number of tombstones equals the number of created outputs (every orphan removed, no source touched); the three result shapes (nil / stats+nil / stats+ErrPostCommitCleanup) imply what the property says; Merge is single-flight (TryLock failure does no store work, lock released once on every path).",
+            "Ghost counters via extern store contracts (assumed). Actual contention between goroutines is sync.Mutex's contract.", "§7 C13"),
+    "C27": ("Frame condition for the whole package discharged on every run by reachability over go/ssa (static calls, closures, class-hierarchy interface resolution over bloomsearch and its module dependencies, constant-branch pruning): no function reachable from the exported API references os.Stdout/os.Stderr, calls print/println, or calls a standard-library stdout/stderr sink; plus the constructor obligation that the logger field is config.Logger or slog.New(slog.DiscardHandler) under a nil test.",
+            "Back end is call-graph analysis, not SMT. The standard library is assumed to reach stdout/stderr only through the listed sinks; runtime panics excluded.", "§7 C27"),
+})
+
 NOT_APPLICABLE = {
     "C14": "snapshot consistency under concurrent flush/merge is an interleaving-only property; no pre/postcondition of a single call expresses it (DESIGN §8)",
     "C15": "crash consistency needs a crash semantics and durability model (crash Hoare logic) the VC generator does not have (DESIGN §8)",
